@@ -41,8 +41,10 @@ MUTS_COMMUNITY = [
     "req+rid+1",  # a *request* PDU (GetRequest) of the right community with a foreign request-id (looped-back request)
     "rid+1/len84",  # non-matching reply whose outer SEQUENCE length is written in four octets (30 84 00 00 ..): well-formed BER
     "len84",  # the genuine reply, outer length in four octets: still the reply
+    "big/trunc-2",  # a reply of > 255 octets cut inside its own header (30 82 | hh ll ...): does not decode
+    "big/trunc-3",
 ]
-MUTS_COMMUNITY_REDUCED = ["rid+1", "rid=r*", "comm-case", "version-other", "trunc-1", "trunc-all", "req+rid+1", "rid+1/len84"]
+MUTS_COMMUNITY_REDUCED = ["rid+1", "rid=r*", "comm-case", "version-other", "trunc-1", "trunc-all", "req+rid+1", "rid+1/len84", "big/trunc-3"]
 MUTS_V3 = [
     "rid+1",
     "rid+2^32",
@@ -67,6 +69,8 @@ MUTS_V3 = [
     "report+msgid=r*",
     "rid+1/len84",
     "len84",
+    "big/trunc-2",
+    "big/trunc-3",
 ]
 MUTS_V3_REDUCED = ["rid+1", "msgid=r*", "user-other", "trunc-1", "report", "report+rid0", "report+msgid=r*"]
 
@@ -146,7 +150,7 @@ def owners(d):
 def classify(d, cfg, same_rid, same_mid):
     """same_rid(owner) / same_mid(owner): does that owner's id equal the outstanding request's id?"""
     k, _, m = d
-    if m is not None and (m.startswith("trunc") or m.startswith("version")):
+    if m is not None and (m.startswith("trunc") or m.startswith("version") or "/trunc" in m):
         return "undecodable"
     if m is not None and (m.startswith("comm") or m.startswith("user") or m.startswith("engine")):
         return "skip"
@@ -245,6 +249,8 @@ class Exec:
         cfg = self.cfg
         req = self.reqs[k]
         value = rb.enc_int(k * 10 + copy)
+        if (m or "").startswith("big"):
+            value = rb.enc_octets(b"v" * 300)
         vb = [(OID + (k,), value)]
         if (m or "").startswith("req+"):
             vb = [(OID + (k,), rb.enc_null())]  # a request binds its OIDs to NULL
@@ -299,6 +305,8 @@ class Exec:
                 msg = _rewrite_version(msg, 1)
         if m is not None and m.endswith("len84"):
             msg = _outer_len84(cfg, msg)
+        if m is not None and m.startswith("big/trunc-"):
+            msg = msg[: int(m[-1])]
         if m == "trunc-1":
             msg = msg[:-1]
         elif m == "trunc-half":
@@ -568,8 +576,8 @@ def search(rec, cfg, K, D, reduced, state_cap):
 # get() calls; the agent answers request k with a scripted list of datagrams (genuine reply, nothing, an extra
 # copy, a late copy of an earlier reply, one rewritten datagram before or after the genuine one).
 
-PUB_MUTS_COMMUNITY = ["rid+1", "rid+1/len84", "len84", "rid+2^32", "rid=r*", "comm-case", "comm+256", "version-other", "trunc-1", "trunc-all", "req+rid+1"]
-PUB_MUTS_V3 = ["rid+1", "rid+1/len84", "rid=r*", "msgid+1", "msgid=r*", "user-other", "engine-longer", "trunc-1", "trunc-all", "report", "report+msgid=r*"]
+PUB_MUTS_COMMUNITY = ["rid+1", "rid+1/len84", "len84", "big/trunc-2", "big/trunc-3", "rid+2^32", "rid=r*", "comm-case", "comm+256", "version-other", "trunc-1", "trunc-all", "req+rid+1"]
+PUB_MUTS_V3 = ["rid+1", "rid+1/len84", "big/trunc-2", "rid=r*", "msgid+1", "msgid=r*", "user-other", "engine-longer", "trunc-1", "trunc-all", "report", "report+msgid=r*"]
 
 
 def pub_scripts(cfg, K, D, bases="one-drop"):
